@@ -62,6 +62,7 @@ def gen_cases(tier, seed):
         orders = [list(ALL[int(rng.integers(len(ALL)))]) for _ in range(3)] + [[0, 0, 0]]
         cases.append({"shells": shells, "orders": orders, "origin": [float(v) for v in np.array(shells[0]["c"]) + rng.normal(size=3)], "transform": None, "shift": False,
                       "classes": classes + ["origin:off", "T:none", "ntriples:4"] + ["o:%d%d%d" % tuple(o) for o in orders], "cost": 60})
+    cases += bases.dup_variants("C07", seed, tier, cases, 7, ok=lambda c: c.get("transform") is None)  # one shell listed twice as the same object
     return cases
 
 
